@@ -49,6 +49,16 @@ def boundary_input(table, n):
         return "SCHEMA b;\nENTITY e;\n  a : INTEGER;\nWHERE\n  w : " + "(" * n + "a" + ")" * n + " > 0;\nEND_ENTITY;\nEND_SCHEMA;\n"
     if table == "attr_count":
         return "SCHEMA b;\nENTITY e;\n" + "".join("  a%d : INTEGER;\n" % i for i in range(n)) + "END_ENTITY;\nEND_SCHEMA;\n"
+    if table.startswith("degenerate:"):
+        ok = "SCHEMA b;\nENTITY e;\n  a : INTEGER;\nEND_ENTITY;\nEND_SCHEMA;"
+        cut = "SCHEMA b;\nCONSTANT\n  k : STRING := "
+        return {"empty": "", "no_final_newline": ok, "eof_in_tail_remark": ok + " -- tail", "eof_in_remark_after_semicolon": ok[:-1] + "; -- tail",
+                "eof_in_string": cut + "'abc", "eof_in_encoded_string": cut + '"0000', "eof_in_embedded_remark": ok + "\n(* open",
+                "eof_in_nested_remark": "SCHEMA b;\n(* a (* b *) still open\nENTITY e;", "eof_in_real": "SCHEMA b;\nCONSTANT\n  k : REAL := 1.5E",
+                "eof_after_minus": ok + " -", "eof_in_identifier": "SCHEMA b;\nENTITY e;\n  a : INTEGER;\nEND_ENT",
+                "nul_bytes": "SCHEMA b;\nENTITY \0e;\n  a : INT\0EGER;\nEND_ENTITY;\0\nEND_SCHEMA;\n\0",
+                "binary_noise": "".join(chr((i * 37 + 11) % 256) for i in range(4000)), "only_newlines": "\n" * 300,
+                "missing_file": None, "directory": None}[table.split(":")[1]]
     raise ValueError(table)
 
 
@@ -68,8 +78,12 @@ def run(ctx):
     ind = mkdir(os.path.join(wd, "in"))
     inputs = []       # (tag, path, origin)
     for f in sorted(fam, key=lambda f: (f["table"], f["n"])):
-        p = os.path.join(ind, "b_%s_%d.exp" % (f["table"], f["n"]))
-        open(p, "w").write(boundary_input(f["table"], f["n"]))
+        p = os.path.join(ind, "b_%s_%d.exp" % (f["table"].replace(":", "_"), f["n"]))
+        txt = boundary_input(f["table"], f["n"])
+        if txt is None:        # not a file: a path that does not exist / a directory
+            p = os.path.join(ind, "nosuch.exp") if f["table"].endswith("missing_file") else mkdir(os.path.join(ind, "adir.exp"))
+        else:
+            open(p, "w", encoding="latin-1").write(txt)
         inputs.append(("boundary:%s:%d" % (f["table"], f["n"]), p, f))
     cases, g2 = fc.gen(ctx)
     cases = fc.stratify(cases)[::2] if ctx.quick else cases[::5]
@@ -80,9 +94,15 @@ def run(ctx):
     for tag, p, expect, m, c in fc.token_inputs(ctx, fc.gen(ctx, with_mutants=False)[0], wd, 2 if ctx.quick else 8, 1 if ctx.quick else 4):
         inputs.append(("token:%s:%s" % (m["class"], tag), p, m))
     # byte-level truncations and mutations of one valid schema
-    base = express.render(cases[0]["schema"]).encode()
+    # (decorated with the tokens whose end the scanner has to look for: tail and embedded remarks, strings)
+    base = express.render(cases[0]["schema"]).replace("END_ENTITY;", "END_ENTITY; -- tail remark", 1)
+    at = min(x for x in (base.find("\nTYPE "), base.find("\nENTITY ")) if x >= 0) + 1
+    base = (base[:at] + "(* embedded (* nested *) remark *)\nCONSTANT\n  k1 : STRING := 'it''s';\n  k2 : STRING := \"00000041\";\n"
+            "  k3 : REAL := 1.5E-3;\nEND_CONSTANT;\n" + base[at:]).encode()
+    inputs.append(("valid:decorated", os.path.join(ind, "decorated.exp"), None))
+    open(os.path.join(ind, "decorated.exp"), "wb").write(base)
     rnd = random.Random(ctx.seed)
-    step = max(1, len(base) // (40 if ctx.quick else 400))
+    step = max(1, len(base) // (150 if ctx.quick else 100000))      # thorough: the text cut at every offset
     for k in range(1, len(base), step):
         p = os.path.join(ind, "t%d.exp" % k)
         open(p, "wb").write(base[:k])
